@@ -117,8 +117,13 @@ def mk_summaries(ctx, K):
             (r'as Iterator>::next$', s_iter_next), (r'IndexMap::<.*>::insert$', s_map_insert),
             (r'as Clone>::clone$', s_clone_shared), (r'as Into<JsonValue>>::into$|<JsonValue as From<.*>>::from$', s_into_json),
             (r'Context::new_with_no_context$', s_new_ctx), (r'<Titles as Default>::default$|<processor::Titles as Default>::default$', lambda ex, st, f, a, t: [(st, named(st, 'EMPTY_TITLES', 'Titles'))]),
-            (r'HashSet::<.*>::insert$', s_hs_insert),
+            (r'HashSet::<.*>::insert$', s_hs_insert), (r'std::mem::take::<', _mem_take),
             (r'<dyn Process as Process>::(process|complete|start)$', s_next)]
+
+
+def _mem_take(ex, st, func, args, ty):
+    from .scen_kernels import s_mem_take
+    return s_mem_take(ex, st, func, args, ty)
 
 
 def _run_rows(ex, F_PROC, selfref, st, k, prefix='row'):
